@@ -297,6 +297,18 @@ Definition s_c05_leaf (args : list (list Z)) : list Z :=
          | Ok v => 0 :: enc_bytes (enc_int ty v) | CErr => [1] | _ => [3] end
   end.
 
+(* DER: an OCTET STRING of n octets `fill` under the given length octets:
+   accepted -> is the DER re-encoding the input? *)
+Definition s_c05_lengths (args : list (list Z)) : list Z :=
+  let n := argn 0 args in let fill := argn 1 args in
+  let d := (4%N :: argb 2 args) ++ repeat fill (N.to_nat n) in
+  match octstr_take_from Der T_OCTET_STRING d with
+  | Ok o => match os_encode Der T_OCTET_STRING o with
+            | Ok w => [0; if list_eqb w d then 1 else 0] | _ => [3] end
+  | CErr => [1]
+  | _ => [3]
+  end.
+
 (* C08: the source fails at its k-th request; the fault-free run of the
    implementation issues n requests (measured by the harness). The model's
    claim: k <= n gives the source error, otherwise the fault-free outcome. *)
@@ -315,13 +327,14 @@ Definition s_c07_grants (args : list (list Z)) : list Z :=
 
 Definition run_stream (sid : N) (args : list (list Z)) : list Z :=
   match sid with
-  | 201%N | 301%N | 502%N | 701%N | 901%N | 1001%N | 1101%N => s_prog args
+  | 101%N | 201%N | 301%N | 502%N | 701%N | 901%N | 1001%N | 1101%N => s_prog args
   | 801%N => s_c08_fault args
   | 702%N => s_c07_grants args
   | 401%N => s_c04_roundtrip args
   | 501%N => s_c05_leaf args
+  | 503%N => s_c05_lengths args
   | 601%N => s_c06_tree args
-  | 1002%N => [1]  (* implementation-only measurement: deep nesting on a small stack *)
+  | 102%N | 103%N | 1002%N => [1]  (* implementation-only measurement: deep nesting on a small stack *)
   | 1201%N => s_c12_new args
   | 1202%N => s_c12_read args
   | 1203%N => s_c12_takeif args
